@@ -391,6 +391,46 @@ def consolidate : List (List Value) → List Rec → Option (List (List Value))
       | some acc' => consolidate acc' rs
     else consolidate (acc ++ [r.vals]) rs
 
+/-- `Schema.NoRetractions` as the logical nodes compute it: the CSV/JSON sources say `true`; Filter, Map and the
+    Requalifier pass it on; StreamJoin: both inputs; OuterJoin: both inputs and no outer side (after
+    `fix: outer join schema must not claim NoRetractions`); `logical.LookupJoin.Typecheck` leaves it unset. The
+    optimizer's rules build their nodes with the schema of the node they replace, so the flag of the plan's root
+    is the one computed here. -/
+def Plan.noRetr : Plan → Bool
+  | .scan _ => true
+  | .filter _ s => s.noRetr
+  | .map _ s => s.noRetr
+  | .streamJoin _ _ l r => l.noRetr && r.noRetr
+  | .outerJoin isL isR _ _ l r => l.noRetr && r.noRetr && !isL && !isR
+  | .lookupJoin _ _ => false
+
+/-- the three kinds of sink of `cmd/root.go` (for a query without ORDER BY / LIMIT) -/
+inductive SinkMode where
+  /-- `batch_table`, `live_table`: `batch.OutputPrinter`, a count tree -/
+  | table
+  /-- `csv`, `json`: `eager.OutputPrinter` writes `record.Values` of every record as it arrives; after
+      `fix: consolidate plans that can retract before the csv and json sinks` an `OrderSensitiveTransform`
+      (a count tree) is put in front of it when the plan's schema does not say `NoRetractions` -/
+  | eager
+  /-- `stream_native`: prints the changelog itself, one `{+…}` / `{-…}` line per record; reading the output back
+      as a table means consolidating it -/
+  | native
+  deriving Repr, DecidableEq, Inhabited
+
+def sink (m : SinkMode) (noRetr : Bool) (rs : List Rec) : Option (List (List Value)) :=
+  match m with
+  | .eager => if noRetr then some (rs.map fun r => r.vals) else consolidate [] rs
+  | _ => consolidate [] rs
+
+/-- the whole engine on a join query, by output mode -/
+def runQueryMode (m : SinkMode) (sch : Sched) (opt : Bool) (q : JQuery) (db : Db) : Option (List (List Value)) :=
+  match planQ db q with
+  | none => none
+  | some p =>
+    match denote sch db (if opt then optimize db p else p) [] with
+    | none => none
+    | some rs => sink m p.noRetr rs
+
 /-- the whole engine on a join query: plan, optimize (unless `--optimize=false`), run, consolidate -/
 def runQuery (sch : Sched) (opt : Bool) (q : JQuery) (db : Db) : Option (List (List Value)) :=
   match planQ db q with
